@@ -351,7 +351,7 @@ func runWorker(bin, id, tier string, seed uint64, j *job, shard, attempt int, sk
 		go func() {
 			var lastSeq int64 = -1
 			var cpu0, cpuPrev float64
-			idle := 0
+			idle, asleep := 0, 0
 			t := time.NewTicker(time.Second)
 			defer t.Stop()
 			for {
@@ -365,19 +365,24 @@ func runWorker(bin, id, tier string, seed uint64, j *job, shard, attempt int, sk
 				if !ok1 || !ok2 {
 					continue
 				}
-				// Blocked worker: the journal does not move, the process uses no processor time at
-				// all and every one of its threads is asleep (not runnable: a starved process on a
+				// Blocked worker: the journal does not move, the process uses next to no processor
+				// time and every one of its threads is asleep (not runnable: a starved process on a
 				// loaded machine is runnable), 40 samples in a row. Workers never sleep or wait for
 				// anything outside themselves, so this is a process in which nothing can run any
 				// more; it gets the goroutine dump at once instead of at the watchdog, and the dump
 				// decides (the same rule as for the watchdog).
-				if seq == lastSeq && cpu-cpuPrev < 0.011 && allThreadsAsleep(cmd.Process.Pid) {
+				// (a worker with the resource-bound monitor has a 20 ms ticker: a percent or two of one
+				// processor and a thread that is now and then awake at the sampling instant)
+				if seq == lastSeq && cpu-cpuPrev < 0.05 {
 					idle++
+					if allThreadsAsleep(cmd.Process.Pid) {
+						asleep++
+					}
 				} else {
-					idle = 0
+					idle, asleep = 0, 0
 				}
 				cpuPrev = cpu
-				if idle >= 40 {
+				if idle >= 40 && asleep >= 30 {
 					r.blocked = fmt.Sprintf("case #%d: no journal progress, no processor time and every thread asleep for %d s", seq, idle)
 					r.timedOut = true
 					cmd.Process.Signal(syscall.SIGQUIT)
